@@ -1,1 +1,1097 @@
-fn main() {}
+//! Engine C: monitors for `truc_runtime::convert` (C08, C09, C10).
+//!
+//! Oracles: a `filter_map` reference model, the converter call log, the births/deaths ledger
+//! (serials only), per-type drop counters for zero-size elements, and a watch on the vector's
+//! buffer in the global allocator (counts deallocations / reallocations of that very block).
+
+use std::alloc::{GlobalAlloc, Layout, System};
+use std::collections::BTreeMap;
+use std::marker::PhantomData;
+use std::panic::{catch_unwind, AssertUnwindSafe};
+use std::sync::atomic::{AtomicU64, AtomicUsize, Ordering};
+use std::sync::Mutex;
+
+use truc_runtime::convert::{
+    convert_vec_in_place, try_convert_vec_in_place, VecElementConversionResult,
+};
+use vtypes::ledger::{self, LedgerEvent};
+use vtypes::Rng;
+
+// ---------------------------------------------------------------------------------------------
+// allocator watch
+
+struct WatchAlloc;
+
+static WATCH_PTR: AtomicUsize = AtomicUsize::new(0);
+static WATCH_DEALLOCS: AtomicUsize = AtomicUsize::new(0);
+static WATCH_REALLOCS: AtomicUsize = AtomicUsize::new(0);
+static WATCH_DEALLOC_SIZE: AtomicUsize = AtomicUsize::new(0);
+static WATCH_DEALLOC_ALIGN: AtomicUsize = AtomicUsize::new(0);
+static WATCH_REUSED: AtomicUsize = AtomicUsize::new(0);
+static ALLOC_EVENTS: AtomicU64 = AtomicU64::new(0);
+
+unsafe impl GlobalAlloc for WatchAlloc {
+    unsafe fn alloc(&self, layout: Layout) -> *mut u8 {
+        let p = System.alloc(layout);
+        ALLOC_EVENTS.fetch_add(1, Ordering::Relaxed);
+        let w = WATCH_PTR.load(Ordering::Relaxed);
+        if w != 0 && p as usize == w && WATCH_DEALLOCS.load(Ordering::Relaxed) > 0 {
+            // the block was released and the address handed out again: stop watching
+            WATCH_REUSED.fetch_add(1, Ordering::Relaxed);
+            WATCH_PTR.store(0, Ordering::Relaxed);
+        }
+        p
+    }
+    unsafe fn dealloc(&self, ptr: *mut u8, layout: Layout) {
+        ALLOC_EVENTS.fetch_add(1, Ordering::Relaxed);
+        if ptr as usize == WATCH_PTR.load(Ordering::Relaxed) && ptr as usize != 0 {
+            WATCH_DEALLOCS.fetch_add(1, Ordering::Relaxed);
+            WATCH_DEALLOC_SIZE.store(layout.size(), Ordering::Relaxed);
+            WATCH_DEALLOC_ALIGN.store(layout.align(), Ordering::Relaxed);
+        }
+        System.dealloc(ptr, layout)
+    }
+    unsafe fn realloc(&self, ptr: *mut u8, layout: Layout, new_size: usize) -> *mut u8 {
+        ALLOC_EVENTS.fetch_add(1, Ordering::Relaxed);
+        if ptr as usize == WATCH_PTR.load(Ordering::Relaxed) && ptr as usize != 0 {
+            WATCH_REALLOCS.fetch_add(1, Ordering::Relaxed);
+        }
+        System.realloc(ptr, layout, new_size)
+    }
+}
+
+#[global_allocator]
+static GLOBAL: WatchAlloc = WatchAlloc;
+
+fn watch(ptr: usize) {
+    WATCH_DEALLOCS.store(0, Ordering::Relaxed);
+    WATCH_REALLOCS.store(0, Ordering::Relaxed);
+    WATCH_REUSED.store(0, Ordering::Relaxed);
+    WATCH_DEALLOC_SIZE.store(0, Ordering::Relaxed);
+    WATCH_DEALLOC_ALIGN.store(0, Ordering::Relaxed);
+    WATCH_PTR.store(ptr, Ordering::Relaxed);
+}
+
+fn unwatch() -> (usize, usize, usize, usize) {
+    WATCH_PTR.store(0, Ordering::Relaxed);
+    (
+        WATCH_DEALLOCS.load(Ordering::Relaxed),
+        WATCH_REALLOCS.load(Ordering::Relaxed),
+        WATCH_DEALLOC_SIZE.load(Ordering::Relaxed),
+        WATCH_DEALLOC_ALIGN.load(Ordering::Relaxed),
+    )
+}
+
+fn watch_counts() -> (usize, usize) {
+    (
+        WATCH_DEALLOCS.load(Ordering::Relaxed),
+        WATCH_REALLOCS.load(Ordering::Relaxed),
+    )
+}
+
+// ---------------------------------------------------------------------------------------------
+// element types
+
+/// Payload of an instrumented element: fixes size and alignment, carries the serial if it can.
+pub trait Payload: Copy + 'static {
+    const NAME: &'static str;
+    fn from_serial(serial: u64) -> Self;
+    /// `None` for zero-size payloads.
+    fn serial(&self) -> Option<u64>;
+}
+
+macro_rules! payload_zst {
+    ($t:ty, $name:expr, $v:expr) => {
+        impl Payload for $t {
+            const NAME: &'static str = $name;
+            fn from_serial(_serial: u64) -> Self {
+                $v
+            }
+            fn serial(&self) -> Option<u64> {
+                None
+            }
+        }
+    };
+}
+payload_zst!((), "0/1", ());
+payload_zst!([u64; 0], "0/8", []);
+
+impl Payload for [u8; 4] {
+    const NAME: &'static str = "4/1";
+    fn from_serial(serial: u64) -> Self {
+        (serial as u32).to_le_bytes()
+    }
+    fn serial(&self) -> Option<u64> {
+        Some(u32::from_le_bytes(*self) as u64)
+    }
+}
+impl Payload for u32 {
+    const NAME: &'static str = "4/4";
+    fn from_serial(serial: u64) -> Self {
+        serial as u32
+    }
+    fn serial(&self) -> Option<u64> {
+        Some(*self as u64)
+    }
+}
+impl Payload for [u8; 3] {
+    const NAME: &'static str = "3/1";
+    fn from_serial(serial: u64) -> Self {
+        let b = (serial as u32).to_le_bytes();
+        [b[0], b[1], b[2]]
+    }
+    fn serial(&self) -> Option<u64> {
+        Some(u32::from_le_bytes([self[0], self[1], self[2], 0]) as u64)
+    }
+}
+impl Payload for [u8; 8] {
+    const NAME: &'static str = "8/1";
+    fn from_serial(serial: u64) -> Self {
+        serial.to_le_bytes()
+    }
+    fn serial(&self) -> Option<u64> {
+        Some(u64::from_le_bytes(*self))
+    }
+}
+impl Payload for [u32; 2] {
+    const NAME: &'static str = "8/4";
+    fn from_serial(serial: u64) -> Self {
+        [serial as u32, (serial >> 32) as u32]
+    }
+    fn serial(&self) -> Option<u64> {
+        Some(self[0] as u64 | (self[1] as u64) << 32)
+    }
+}
+impl Payload for u64 {
+    const NAME: &'static str = "8/8";
+    fn from_serial(serial: u64) -> Self {
+        serial
+    }
+    fn serial(&self) -> Option<u64> {
+        Some(*self)
+    }
+}
+impl Payload for [u64; 2] {
+    const NAME: &'static str = "16/8";
+    fn from_serial(serial: u64) -> Self {
+        [serial, !serial]
+    }
+    fn serial(&self) -> Option<u64> {
+        Some(self[0])
+    }
+}
+impl Payload for vtypes::A16 {
+    const NAME: &'static str = "16/16";
+    fn from_serial(serial: u64) -> Self {
+        vtypes::A16 {
+            v: serial,
+            w: !serial,
+        }
+    }
+    fn serial(&self) -> Option<u64> {
+        Some(self.v)
+    }
+}
+impl Payload for vtypes::A32 {
+    const NAME: &'static str = "32/32";
+    fn from_serial(serial: u64) -> Self {
+        vtypes::A32 {
+            v: serial,
+            w: !serial,
+            x: 0,
+        }
+    }
+    fn serial(&self) -> Option<u64> {
+        Some(self.v)
+    }
+}
+impl Payload for [u64; 32] {
+    const NAME: &'static str = "256/8";
+    fn from_serial(serial: u64) -> Self {
+        let mut a = [0u64; 32];
+        for (i, x) in a.iter_mut().enumerate() {
+            *x = serial.wrapping_add(i as u64);
+        }
+        a
+    }
+    fn serial(&self) -> Option<u64> {
+        Some(self[0])
+    }
+}
+
+static ZST_DROPS: [AtomicU64; 4] = [
+    AtomicU64::new(0),
+    AtomicU64::new(0),
+    AtomicU64::new(0),
+    AtomicU64::new(0),
+];
+
+/// Instrumented element: layout of `P`, a destructor that reports to the ledger (or to a
+/// per-tag counter for zero-size payloads). `TAG` makes distinct types of equal layout.
+pub struct E<P: Payload, const TAG: usize> {
+    p: P,
+}
+
+impl<P: Payload, const TAG: usize> Drop for E<P, TAG> {
+    fn drop(&mut self) {
+        match self.p.serial() {
+            Some(s) => {
+                ledger::death(s);
+            }
+            None => {
+                ZST_DROPS[TAG].fetch_add(1, Ordering::Relaxed);
+            }
+        }
+    }
+}
+
+/// What the monitors need from an element type.
+pub trait Elem: Sized + 'static {
+    const NAME: &'static str;
+    /// Whether drops are observable (ledger or counter).
+    const DROP_TRACKED: bool;
+    /// Zero-size: identity is not observable, only counts.
+    const COUNTED: bool;
+    fn make(serial: u64) -> Self;
+    fn serial(&self) -> u64;
+    fn zst_drops() -> u64 {
+        0
+    }
+}
+
+impl<P: Payload, const TAG: usize> Elem for E<P, TAG> {
+    const NAME: &'static str = P::NAME;
+    const DROP_TRACKED: bool = true;
+    const COUNTED: bool = std::mem::size_of::<P>() == 0;
+    fn make(serial: u64) -> Self {
+        let p = P::from_serial(serial);
+        if p.serial().is_some() {
+            ledger::birth(serial);
+        }
+        E { p }
+    }
+    fn serial(&self) -> u64 {
+        self.p.serial().unwrap_or(0)
+    }
+    fn zst_drops() -> u64 {
+        ZST_DROPS[TAG].load(Ordering::Relaxed)
+    }
+}
+
+impl Elem for u64 {
+    const NAME: &'static str = "u64";
+    const DROP_TRACKED: bool = false;
+    const COUNTED: bool = false;
+    fn make(serial: u64) -> Self {
+        serial
+    }
+    fn serial(&self) -> u64 {
+        *self
+    }
+}
+
+impl Elem for f64 {
+    const NAME: &'static str = "f64";
+    const DROP_TRACKED: bool = false;
+    const COUNTED: bool = false;
+    fn make(serial: u64) -> Self {
+        serial as f64
+    }
+    fn serial(&self) -> u64 {
+        *self as u64
+    }
+}
+
+/// Heap-owning elements, so that Miri and memcheck see real leaks and double frees too.
+pub struct HeapA(vtypes::Tracked);
+pub struct HeapB(vtypes::Tracked);
+
+macro_rules! elem_heap {
+    ($t:ident) => {
+        impl Elem for $t {
+            const NAME: &'static str = stringify!($t);
+            const DROP_TRACKED: bool = true;
+            const COUNTED: bool = false;
+            fn make(serial: u64) -> Self {
+                $t(<vtypes::Tracked as vtypes::Probe>::make(serial))
+            }
+            fn serial(&self) -> u64 {
+                vtypes::Probe::ident(&self.0)
+            }
+        }
+    };
+}
+elem_heap!(HeapA);
+elem_heap!(HeapB);
+
+// ---------------------------------------------------------------------------------------------
+// reporting
+
+#[derive(Default)]
+struct Out {
+    evaluations: u64,
+    distinct: std::collections::HashSet<u64>,
+    counters: BTreeMap<String, u64>,
+    samples: Vec<String>,
+    violations: Vec<(String, String, String)>, // kind, detail, case text
+    violations_total: u64,
+}
+
+impl Out {
+    fn count(&mut self, k: &str, n: u64) {
+        *self.counters.entry(k.to_owned()).or_default() += n;
+    }
+    fn violation(&mut self, kind: &str, detail: String, case: &str) {
+        self.violations_total += 1;
+        if self.violations.len() < 40 {
+            self.violations
+                .push((kind.to_owned(), detail, case.to_owned()));
+        }
+    }
+}
+
+/// Injected panic payload.
+#[derive(Debug, PartialEq, Eq)]
+pub struct InjectedPanic(pub u64);
+
+/// Injected error value.
+#[derive(Debug, PartialEq, Eq)]
+pub struct InjectedError(pub u64);
+
+#[derive(Clone, Copy, Debug, PartialEq, Eq)]
+enum ConvKind {
+    IgnorePrev,
+    ReadPrev,
+    ModifyPrev,
+}
+
+#[derive(Clone, Copy, Debug, PartialEq, Eq)]
+enum FailKind {
+    ErrorReturn,
+    PanicHoldingInput,
+    PanicAfterDroppingInput,
+    PanicAfterBuildingOutput,
+}
+
+const OUT_BASE: u64 = 1 << 20;
+const MOD_BASE: u64 = 1 << 21;
+
+fn ledger_problems(events: Vec<LedgerEvent>) -> Vec<String> {
+    events.into_iter().map(|e| format!("{:?}", e)).collect()
+}
+
+/// One happy-path conversion (C08). `pattern[i]` = element i is converted (else abandoned).
+fn case_convert<T: Elem, U: Elem>(
+    pattern: &[bool],
+    spare: usize,
+    kind: ConvKind,
+    use_try: bool,
+    out: &mut Out,
+) {
+    let n = pattern.len();
+    let case = format!(
+        "convert {}->{} ({}) len={} spare={} pattern={} conv={:?} via={}",
+        T::NAME,
+        U::NAME,
+        std::any::type_name::<T>(),
+        n,
+        spare,
+        pattern.iter().map(|b| if *b { 'C' } else { 'a' }).collect::<String>(),
+        kind,
+        if use_try { "try_convert" } else { "convert" }
+    );
+    out.evaluations += 1;
+    let _ = ledger::close_epoch();
+    let t_drops0 = T::zst_drops();
+    let u_drops0 = U::zst_drops();
+    let mut input: Vec<T> = Vec::with_capacity(n + spare);
+    for i in 0..n {
+        input.push(T::make(1 + i as u64));
+    }
+    let in_ptr = input.as_ptr() as usize;
+    let in_cap = input.capacity();
+    let bytes = in_cap * std::mem::size_of::<T>();
+    // reference model
+    let mut model: Vec<u64> = Vec::new();
+    let log: Mutex<Vec<(usize, u64, Option<u64>)>> = Mutex::new(Vec::new());
+    let calls = AtomicUsize::new(0);
+    // a vector without allocation has nothing to watch (counters are reset all the same)
+    watch(if bytes > 0 { in_ptr } else { 0 });
+    let conv = |t: T, prev: Option<&mut U>| {
+        let i = calls.fetch_add(1, Ordering::Relaxed);
+        let prev_seen = prev.as_ref().map(|p| p.serial());
+        log.lock().unwrap().push((i, t.serial(), prev_seen));
+        if kind == ConvKind::ModifyPrev {
+            if let Some(p) = prev {
+                *p = U::make(MOD_BASE + i as u64);
+            }
+        }
+        drop(t);
+        if i < pattern.len() && pattern[i] {
+            VecElementConversionResult::Converted(U::make(OUT_BASE + i as u64))
+        } else {
+            VecElementConversionResult::Abandonned
+        }
+    };
+    let result: Vec<U> = if use_try {
+        match try_convert_vec_in_place::<T, U, _, InjectedError>(input, |t, p| Ok(conv(t, p))) {
+            Ok(v) => v,
+            Err(e) => {
+                out.violation("unexpected-error", format!("{:?}", e), &case);
+                return;
+            }
+        }
+    } else {
+        convert_vec_in_place::<T, U, _>(input, conv)
+    };
+    let (deallocs_during, reallocs_during) = watch_counts();
+    // model
+    for i in 0..n {
+        if kind == ConvKind::ModifyPrev && !model.is_empty() {
+            let last = model.len() - 1;
+            model[last] = MOD_BASE + i as u64;
+        }
+        if pattern[i] {
+            model.push(OUT_BASE + i as u64);
+        }
+    }
+    // call log: every input once, in order, with the most recent output
+    let log = log.into_inner().unwrap();
+    if log.len() != n {
+        out.violation(
+            "converter-call-count",
+            format!("{} calls for {} elements", log.len(), n),
+            &case,
+        );
+    }
+    {
+        let mut last_out: Option<u64> = None;
+        for (k, (i, input_serial, prev_seen)) in log.iter().enumerate() {
+            if *i != k || (!T::COUNTED && *input_serial != 1 + k as u64) {
+                out.violation(
+                    "converter-input-order",
+                    format!("call {} received input serial {} (expected {})", k, input_serial, 1 + k),
+                    &case,
+                );
+            }
+            let expect_prev = if U::COUNTED { last_out.map(|_| 0) } else { last_out };
+            if *prev_seen != expect_prev {
+                out.violation(
+                    "converter-previous-output",
+                    format!("call {} saw previous output {:?}, expected {:?}", k, prev_seen, expect_prev),
+                    &case,
+                );
+            }
+            if kind == ConvKind::ModifyPrev && last_out.is_some() {
+                last_out = Some(MOD_BASE + k as u64);
+            }
+            if k < pattern.len() && pattern[k] {
+                last_out = Some(OUT_BASE + k as u64);
+            }
+        }
+        out.count("converter_calls_observed", log.len() as u64);
+    }
+    // result
+    let got: Vec<u64> = result.iter().map(|u| u.serial()).collect();
+    let want: Vec<u64> = if U::COUNTED {
+        model.iter().map(|_| 0).collect()
+    } else {
+        model.clone()
+    };
+    if got != want {
+        out.violation(
+            "result-differs-from-model",
+            format!("result {:?}, model {:?}", got, want),
+            &case,
+        );
+    }
+    out.count("result_elements_compared", got.len() as u64);
+    if result.as_ptr() as usize != in_ptr {
+        out.violation(
+            "allocation-not-reused",
+            format!("input buffer {:#x}, result buffer {:#x}", in_ptr, result.as_ptr() as usize),
+            &case,
+        );
+    }
+    if result.capacity() != in_cap {
+        out.violation(
+            "capacity-changed",
+            format!("input capacity {}, result capacity {}", in_cap, result.capacity()),
+            &case,
+        );
+    }
+    if deallocs_during != 0 || reallocs_during != 0 {
+        out.violation(
+            "buffer-touched-by-allocator-during-call",
+            format!("{} deallocations, {} reallocations of the input buffer", deallocs_during, reallocs_during),
+            &case,
+        );
+    }
+    // inputs are all gone, outputs alive
+    if T::DROP_TRACKED && !T::COUNTED {
+        for i in 0..n {
+            if ledger::state(1 + i as u64) != Some(ledger::State::Dropped) {
+                out.violation(
+                    "input-not-dropped",
+                    format!("input serial {} is {:?} after the call", 1 + i, ledger::state(1 + i as u64)),
+                    &case,
+                );
+            }
+        }
+    }
+    if U::DROP_TRACKED && !U::COUNTED {
+        for s in &model {
+            if ledger::state(*s) != Some(ledger::State::Live) {
+                out.violation(
+                    "output-not-alive",
+                    format!("output serial {} is {:?} in the result", s, ledger::state(*s)),
+                    &case,
+                );
+            }
+        }
+    }
+    drop(result);
+    let (deallocs, _reallocs, dsize, dalign) = unwatch();
+    if bytes > 0 {
+        out.count("buffer_releases_observed", 1);
+        if deallocs != 1 || dsize != bytes || dalign != std::mem::align_of::<U>() {
+            out.violation(
+                "buffer-release",
+                format!(
+                    "dropping the result released the buffer {} times (size {} align {}), expected once with size {} align {}",
+                    deallocs, dsize, dalign, bytes, std::mem::align_of::<U>()
+                ),
+                &case,
+            );
+        }
+    }
+    for p in ledger_problems(ledger::close_epoch()) {
+        out.violation("ledger", p, &case);
+    }
+    if T::COUNTED && T::zst_drops() - t_drops0 != n as u64 && std::any::TypeId::of::<T>() != std::any::TypeId::of::<U>() {
+        out.violation(
+            "zst-input-drop-count",
+            format!("{} inputs, {} input drops", n, T::zst_drops() - t_drops0),
+            &case,
+        );
+    }
+    if U::COUNTED && std::any::TypeId::of::<T>() != std::any::TypeId::of::<U>() {
+        let made = model.len() as u64
+            + if kind == ConvKind::ModifyPrev {
+                // every modification made one more output and dropped one
+                log.iter().filter(|(_, _, p)| p.is_some()).count() as u64
+            } else {
+                0
+            };
+        if U::zst_drops() - u_drops0 != made {
+            out.violation(
+                "zst-output-drop-count",
+                format!("{} outputs made, {} output drops", made, U::zst_drops() - u_drops0),
+                &case,
+            );
+        }
+    }
+    let nconv = pattern.iter().filter(|b| **b).count();
+    if n >= 2 && nconv >= 1 && nconv < n {
+        out.distinct.insert(vtypes::fnv64(case.as_bytes()));
+        if out.samples.len() < 5 && out.evaluations % 211 == 0 {
+            out.samples.push(case);
+        }
+    }
+}
+
+/// One failing conversion (C09): elements before `pos` follow `pattern`, element `pos` fails.
+fn case_fail<T: Elem, U: Elem>(
+    n: usize,
+    pos: usize,
+    pattern: &[bool],
+    fail: FailKind,
+    spare: usize,
+    use_try: bool,
+    out: &mut Out,
+) {
+    let case = format!(
+        "fail {}->{} ({}) len={} spare={} fail_at={} kind={:?} before={} via={}",
+        T::NAME,
+        U::NAME,
+        std::any::type_name::<T>(),
+        n,
+        spare,
+        pos,
+        fail,
+        pattern.iter().map(|b| if *b { 'C' } else { 'a' }).collect::<String>(),
+        if use_try { "try_convert" } else { "convert" }
+    );
+    out.evaluations += 1;
+    let _ = ledger::close_epoch();
+    let t_drops0 = T::zst_drops();
+    let u_drops0 = U::zst_drops();
+    let same_type = std::any::TypeId::of::<T>() == std::any::TypeId::of::<U>();
+    let mut input: Vec<T> = Vec::with_capacity(n + spare);
+    for i in 0..n {
+        input.push(T::make(1 + i as u64));
+    }
+    let in_ptr = input.as_ptr() as usize;
+    let bytes = input.capacity() * std::mem::size_of::<T>();
+    let token = 0xF00D_0000 + (pos as u64) * 64 + n as u64;
+    let calls = AtomicUsize::new(0);
+    let outputs_made = AtomicUsize::new(0);
+    // a vector without allocation has nothing to watch (counters are reset all the same)
+    watch(if bytes > 0 { in_ptr } else { 0 });
+    let conv = |t: T, _prev: Option<&mut U>| -> Result<VecElementConversionResult<U>, InjectedError> {
+        let i = calls.fetch_add(1, Ordering::Relaxed);
+        if i == pos {
+            match fail {
+                FailKind::ErrorReturn => {
+                    drop(t);
+                    return Err(InjectedError(token));
+                }
+                FailKind::PanicHoldingInput => {
+                    let _hold = t;
+                    std::panic::panic_any(InjectedPanic(token));
+                }
+                FailKind::PanicAfterDroppingInput => {
+                    drop(t);
+                    std::panic::panic_any(InjectedPanic(token));
+                }
+                FailKind::PanicAfterBuildingOutput => {
+                    drop(t);
+                    let _u = U::make(OUT_BASE + i as u64);
+                    outputs_made.fetch_add(1, Ordering::Relaxed);
+                    std::panic::panic_any(InjectedPanic(token));
+                }
+            }
+        }
+        drop(t);
+        if i < pattern.len() && pattern[i] {
+            outputs_made.fetch_add(1, Ordering::Relaxed);
+            Ok(VecElementConversionResult::Converted(U::make(OUT_BASE + i as u64)))
+        } else {
+            Ok(VecElementConversionResult::Abandonned)
+        }
+    };
+    enum Got {
+        Returned(usize),
+        Err(InjectedError),
+        Panic(Box<dyn std::any::Any + Send>),
+    }
+    let got = if use_try {
+        match catch_unwind(AssertUnwindSafe(|| {
+            try_convert_vec_in_place::<T, U, _, InjectedError>(input, conv)
+        })) {
+            Ok(Ok(v)) => Got::Returned(v.len()),
+            Ok(Err(e)) => Got::Err(e),
+            Err(p) => Got::Panic(p),
+        }
+    } else {
+        match catch_unwind(AssertUnwindSafe(|| {
+            convert_vec_in_place::<T, U, _>(input, |t, p| match conv(t, p) {
+                Ok(r) => r,
+                Err(_) => unreachable!(),
+            })
+        })) {
+            Ok(v) => Got::Returned(v.len()),
+            Err(p) => Got::Panic(p),
+        }
+    };
+    let (deallocs, reallocs, dsize, _dalign) = unwatch();
+    // the caller receives that very error / payload
+    match (&got, fail) {
+        (Got::Err(e), FailKind::ErrorReturn) => {
+            if e.0 != token {
+                out.violation("error-value-changed", format!("got {:?}, injected {}", e, token), &case);
+            }
+            out.count("error_values_checked", 1);
+        }
+        (Got::Panic(p), k) if k != FailKind::ErrorReturn => {
+            match p.downcast_ref::<InjectedPanic>() {
+                Some(ip) if ip.0 == token => {}
+                Some(ip) => out.violation("panic-payload-changed", format!("got {:?}, injected {}", ip, token), &case),
+                None => {
+                    let text = p
+                        .downcast_ref::<String>()
+                        .cloned()
+                        .or_else(|| p.downcast_ref::<&str>().map(|s| s.to_string()))
+                        .unwrap_or_else(|| "<other type>".to_owned());
+                    out.violation(
+                        "panic-payload-replaced",
+                        format!("the caller received a payload of another type: {:?}", text),
+                        &case,
+                    );
+                }
+            }
+            out.count("panic_payloads_checked", 1);
+        }
+        (Got::Returned(len), _) => {
+            out.violation("failure-swallowed", format!("the call returned a vector of length {}", len), &case);
+        }
+        (Got::Err(_), _) => out.violation("unexpected-error", "Err returned for a panic case".to_owned(), &case),
+        (Got::Panic(_), _) => out.violation("unexpected-panic", "panic for an error-return case".to_owned(), &case),
+    }
+    // no call after the failing one
+    let ncalls = calls.load(Ordering::Relaxed);
+    if ncalls != pos + 1 {
+        out.violation(
+            "converter-called-after-failure",
+            format!("{} converter calls, failure was at call {}", ncalls, pos),
+            &case,
+        );
+    }
+    // the allocation is released exactly once before control returns
+    if bytes > 0 {
+        out.count("buffer_releases_observed", 1);
+        if deallocs != 1 || reallocs != 0 || dsize != bytes {
+            out.violation(
+                "buffer-release",
+                format!(
+                    "buffer of {} bytes: {} deallocations (size {}), {} reallocations before control returned",
+                    bytes, deallocs, dsize, reallocs
+                ),
+                &case,
+            );
+        }
+    }
+    // every input and every produced output is dead, exactly once
+    let events = ledger::close_epoch();
+    for p in ledger_problems(events) {
+        out.violation("ledger", p, &case);
+    }
+    if T::COUNTED && !same_type {
+        let d = T::zst_drops() - t_drops0;
+        if d != n as u64 {
+            out.violation("zst-input-drop-count", format!("{} inputs, {} input drops", n, d), &case);
+        }
+    }
+    if U::COUNTED && !same_type {
+        let d = U::zst_drops() - u_drops0;
+        let made = outputs_made.load(Ordering::Relaxed) as u64;
+        if d != made {
+            out.violation("zst-output-drop-count", format!("{} outputs made, {} output drops", made, d), &case);
+        }
+    }
+    if T::COUNTED && same_type {
+        let d = T::zst_drops() - t_drops0;
+        let made = n as u64 + outputs_made.load(Ordering::Relaxed) as u64;
+        if d != made {
+            out.violation("zst-drop-count", format!("{} values made, {} drops", made, d), &case);
+        }
+    }
+    out.count("ledger_epochs_closed", 1);
+    let nconv = pattern.iter().filter(|b| **b).count();
+    if n >= 2 && (nconv >= 1 || pos + 1 < n) {
+        out.distinct.insert(vtypes::fnv64(case.as_bytes()));
+        if out.samples.len() < 5 && out.evaluations % 509 == 0 {
+            out.samples.push(case);
+        }
+    }
+}
+
+/// One refusal case (C10).
+fn case_refuse<T: Elem, U: Elem>(n: usize, spare: usize, use_try: bool, out: &mut Out) {
+    let same_layout = std::mem::size_of::<T>() == std::mem::size_of::<U>()
+        && std::mem::align_of::<T>() == std::mem::align_of::<U>();
+    let case = format!(
+        "refuse {}->{} len={} spare={} same_layout={} via={}",
+        T::NAME,
+        U::NAME,
+        n,
+        spare,
+        same_layout,
+        if use_try { "try_convert" } else { "convert" }
+    );
+    out.evaluations += 1;
+    let _ = ledger::close_epoch();
+    let t_drops0 = T::zst_drops();
+    let mut input: Vec<T> = Vec::with_capacity(n + spare);
+    for i in 0..n {
+        input.push(T::make(1 + i as u64));
+    }
+    let in_ptr = input.as_ptr() as usize;
+    let bytes = input.capacity() * std::mem::size_of::<T>();
+    let calls = AtomicUsize::new(0);
+    // a vector without allocation has nothing to watch (counters are reset all the same)
+    watch(if bytes > 0 { in_ptr } else { 0 });
+    // The converter never builds a `U` out of a mismatching `T`: it only records the call.
+    let r = if use_try {
+        catch_unwind(AssertUnwindSafe(|| {
+            try_convert_vec_in_place::<T, U, _, InjectedError>(input, |t, _| {
+                calls.fetch_add(1, Ordering::Relaxed);
+                drop(t);
+                Ok(VecElementConversionResult::Abandonned)
+            })
+            .map(|v| v.len())
+        }))
+        .map(|r| r.unwrap_or(usize::MAX))
+    } else {
+        catch_unwind(AssertUnwindSafe(|| {
+            convert_vec_in_place::<T, U, _>(input, |t, _| {
+                calls.fetch_add(1, Ordering::Relaxed);
+                drop(t);
+                VecElementConversionResult::Abandonned
+            })
+            .len()
+        }))
+    };
+    let (deallocs, reallocs, dsize, dalign) = unwatch();
+    let ncalls = calls.load(Ordering::Relaxed);
+    if same_layout {
+        out.count("control_pairs", 1);
+        match r {
+            Ok(0) => {}
+            Ok(l) => out.violation("control-result", format!("all elements abandoned but the result has length {}", l), &case),
+            Err(_) => out.violation("control-refused", "types of equal size and alignment were refused".to_owned(), &case),
+        }
+        if ncalls != n {
+            out.violation("control-call-count", format!("{} calls for {} elements", ncalls, n), &case);
+        }
+    } else {
+        out.count("mismatching_pairs", 1);
+        if let Ok(l) = &r {
+            out.violation(
+                "mismatch-accepted",
+                format!(
+                    "size {}/{} align {}/{}: the call returned (length {}) instead of panicking",
+                    std::mem::size_of::<T>(),
+                    std::mem::size_of::<U>(),
+                    std::mem::align_of::<T>(),
+                    std::mem::align_of::<U>(),
+                    l
+                ),
+                &case,
+            );
+        }
+        if ncalls != 0 {
+            out.violation(
+                "converter-called-on-mismatch",
+                format!("{} converter calls before the refusal", ncalls),
+                &case,
+            );
+        }
+    }
+    if bytes > 0 {
+        out.count("buffer_releases_observed", 1);
+        // the input vector is dropped normally: with the layout it was allocated with
+        if deallocs != 1 || reallocs != 0 || dsize != bytes || dalign != std::mem::align_of::<T>() && !same_layout {
+            out.violation(
+                "buffer-release",
+                format!(
+                    "buffer of {} bytes align {}: {} deallocations (size {} align {}), {} reallocations",
+                    bytes,
+                    std::mem::align_of::<T>(),
+                    deallocs,
+                    dsize,
+                    dalign,
+                    reallocs
+                ),
+                &case,
+            );
+        }
+    }
+    for p in ledger_problems(ledger::close_epoch()) {
+        out.violation("ledger", p, &case);
+    }
+    if T::COUNTED && std::any::TypeId::of::<T>() != std::any::TypeId::of::<U>() {
+        let d = T::zst_drops() - t_drops0;
+        if d != n as u64 {
+            out.violation("zst-input-drop-count", format!("{} inputs, {} drops", n, d), &case);
+        }
+    }
+    if !same_layout {
+        out.distinct.insert(vtypes::fnv64(case.as_bytes()));
+        if out.samples.len() < 5 && out.evaluations % 97 == 0 {
+            out.samples.push(case);
+        }
+    }
+}
+
+// ---------------------------------------------------------------------------------------------
+// workloads
+
+fn patterns(n: usize) -> Vec<Vec<bool>> {
+    (0..(1u32 << n))
+        .map(|m| (0..n).map(|i| m & (1 << i) != 0).collect())
+        .collect()
+}
+
+fn workload_convert<T: Elem, U: Elem>(max_len: usize, random: usize, max_random_len: usize, rng: &mut Rng, out: &mut Out) {
+    for n in 0..=max_len {
+        for pat in patterns(n) {
+            for kind in [ConvKind::IgnorePrev, ConvKind::ReadPrev, ConvKind::ModifyPrev] {
+                for spare in [0usize, 3] {
+                    for use_try in [false, true] {
+                        if use_try && (spare != 0 || kind == ConvKind::ReadPrev) {
+                            continue;
+                        }
+                        case_convert::<T, U>(&pat, spare, kind, use_try, out);
+                    }
+                }
+            }
+        }
+    }
+    for _ in 0..random {
+        let n = rng.range(0, max_random_len);
+        let density = rng.range(0, 10);
+        let pat: Vec<bool> = (0..n).map(|_| rng.below(10) < density).collect();
+        let kind = *rng.pick(&[ConvKind::IgnorePrev, ConvKind::ReadPrev, ConvKind::ModifyPrev]);
+        let spare = *rng.pick(&[0usize, 0, 1, 7, 64]);
+        case_convert::<T, U>(&pat, spare, kind, rng.chance(1, 3), out);
+    }
+}
+
+fn workload_fail<T: Elem, U: Elem>(max_len: usize, random: usize, max_random_len: usize, rng: &mut Rng, out: &mut Out) {
+    let kinds = [
+        FailKind::ErrorReturn,
+        FailKind::PanicHoldingInput,
+        FailKind::PanicAfterDroppingInput,
+        FailKind::PanicAfterBuildingOutput,
+    ];
+    for n in 1..=max_len {
+        for pos in 0..n {
+            for pat in patterns(pos) {
+                for fail in kinds {
+                    // error returns only exist in the try_ form; panics are run through both
+                    case_fail::<T, U>(n, pos, &pat, fail, 0, true, out);
+                    if fail != FailKind::ErrorReturn {
+                        case_fail::<T, U>(n, pos, &pat, fail, 0, false, out);
+                    }
+                }
+            }
+        }
+    }
+    for _ in 0..random {
+        let n = rng.range(1, max_random_len);
+        let pos = rng.below(n);
+        let density = rng.range(0, 10);
+        let pat: Vec<bool> = (0..pos).map(|_| rng.below(10) < density).collect();
+        let fail = *rng.pick(&kinds);
+        let spare = *rng.pick(&[0usize, 0, 1, 7, 64]);
+        let use_try = fail == FailKind::ErrorReturn || rng.chance(1, 2);
+        case_fail::<T, U>(n, pos, &pat, fail, spare, use_try, out);
+    }
+}
+
+static PAIR_TURN: AtomicUsize = AtomicUsize::new(0);
+static PAIR_SHARD: AtomicUsize = AtomicUsize::new(0);
+static PAIR_NSHARDS: AtomicUsize = AtomicUsize::new(1);
+
+/// Type pairs are dealt round-robin to the shards.
+fn my_turn() -> bool {
+    let t = PAIR_TURN.fetch_add(1, Ordering::Relaxed);
+    t % PAIR_NSHARDS.load(Ordering::Relaxed) == PAIR_SHARD.load(Ordering::Relaxed)
+}
+
+macro_rules! for_pairs {
+    ($f:ident, $($args:expr),*) => {{
+        if my_turn() { $f::<u64, u64>($($args),*); }
+        if my_turn() { $f::<u64, f64>($($args),*); }
+        if my_turn() { $f::<HeapA, HeapB>($($args),*); }
+        if my_turn() { $f::<HeapA, HeapA>($($args),*); }
+        if my_turn() { $f::<E<(), 0>, E<(), 1>>($($args),*); }
+        if my_turn() { $f::<E<[u64; 0], 0>, E<[u64; 0], 1>>($($args),*); }
+        if my_turn() { $f::<E<(), 2>, E<(), 2>>($($args),*); }
+        if my_turn() { $f::<E<[u8; 3], 0>, E<[u8; 3], 1>>($($args),*); }
+        if my_turn() { $f::<E<u32, 0>, E<u32, 1>>($($args),*); }
+        if my_turn() { $f::<E<[u8; 8], 0>, E<[u8; 8], 1>>($($args),*); }
+        if my_turn() { $f::<E<[u64; 2], 0>, E<[u64; 2], 1>>($($args),*); }
+        if my_turn() { $f::<E<vtypes::A32, 0>, E<vtypes::A32, 1>>($($args),*); }
+        if my_turn() { $f::<E<[u64; 32], 0>, E<[u64; 32], 1>>($($args),*); }
+        // mixed droppiness: only one side has observable drops
+        if my_turn() { $f::<u64, E<u64, 1>>($($args),*); }
+        if my_turn() { $f::<E<u64, 0>, u64>($($args),*); }
+    }};
+}
+
+macro_rules! refuse_row {
+    ($t:ty, $max_len:expr, $out:expr) => {{
+        if my_turn() { refuse_cell::<$t, E<(), 1>>($max_len, $out); }
+        if my_turn() { refuse_cell::<$t, E<[u64; 0], 1>>($max_len, $out); }
+        if my_turn() { refuse_cell::<$t, E<u32, 1>>($max_len, $out); }
+        if my_turn() { refuse_cell::<$t, E<[u8; 4], 1>>($max_len, $out); }
+        if my_turn() { refuse_cell::<$t, E<u64, 1>>($max_len, $out); }
+        if my_turn() { refuse_cell::<$t, E<[u32; 2], 1>>($max_len, $out); }
+        if my_turn() { refuse_cell::<$t, E<[u8; 8], 1>>($max_len, $out); }
+        if my_turn() { refuse_cell::<$t, E<[u64; 2], 1>>($max_len, $out); }
+        if my_turn() { refuse_cell::<$t, E<vtypes::A16, 1>>($max_len, $out); }
+    }};
+}
+
+fn refuse_cell<T: Elem, U: Elem>(max_len: usize, out: &mut Out) {
+    for n in 0..=max_len {
+        for spare in [0usize, 2] {
+            for use_try in [false, true] {
+                case_refuse::<T, U>(n, spare, use_try, out);
+            }
+        }
+    }
+}
+
+fn main() {
+    let args: Vec<String> = std::env::args().collect();
+    let mode = args.get(1).cloned().unwrap_or_default();
+    let get = |k: &str, d: u64| -> u64 {
+        args.iter()
+            .position(|a| a == k)
+            .and_then(|i| args.get(i + 1))
+            .and_then(|v| v.parse().ok())
+            .unwrap_or(d)
+    };
+    let seed = get("--seed", 1);
+    let max_len = get("--max-len", 6) as usize;
+    PAIR_SHARD.store(get("--shard", 0) as usize, Ordering::Relaxed);
+    PAIR_NSHARDS.store(get("--nshards", 1).max(1) as usize, Ordering::Relaxed);
+    let random = get("--random", 200) as usize;
+    let max_random_len = get("--max-random-len", 2000) as usize;
+    let out_path = args
+        .iter()
+        .position(|a| a == "--out")
+        .and_then(|i| args.get(i + 1))
+        .cloned();
+    // injected panics are expected: keep stderr quiet
+    std::panic::set_hook(Box::new(|_| {}));
+    let mut out = Out::default();
+    let mut rng = Rng::stream(seed, 0xC0);
+    match mode.as_str() {
+        "convert" => {
+            for_pairs!(workload_convert, max_len, random, max_random_len, &mut rng, &mut out);
+        }
+        "fail" => {
+            for_pairs!(workload_fail, max_len, random, max_random_len, &mut rng, &mut out);
+        }
+        "refuse" => {
+            refuse_row!(E<(), 0>, max_len, &mut out);
+            refuse_row!(E<[u64; 0], 0>, max_len, &mut out);
+            refuse_row!(E<u32, 0>, max_len, &mut out);
+            refuse_row!(E<[u8; 4], 0>, max_len, &mut out);
+            refuse_row!(E<u64, 0>, max_len, &mut out);
+            refuse_row!(E<[u32; 2], 0>, max_len, &mut out);
+            refuse_row!(E<[u8; 8], 0>, max_len, &mut out);
+            refuse_row!(E<[u64; 2], 0>, max_len, &mut out);
+            refuse_row!(E<vtypes::A16, 0>, max_len, &mut out);
+        }
+        "noop" => {}
+        _ => {
+            eprintln!("usage: vecmon convert|fail|refuse [--seed N] [--max-len N] [--random N] [--max-random-len N] [--out F]");
+            std::process::exit(2);
+        }
+    }
+    let totals = ledger::totals();
+    out.count("ledger_births", totals.births);
+    out.count("ledger_deaths", totals.deaths);
+    out.count("allocator_events", ALLOC_EVENTS.load(Ordering::Relaxed));
+    let report = serde_json::json!({
+        "mode": mode,
+        "seed": seed,
+        "max_len": max_len,
+        "evaluations": out.evaluations,
+        "distinct_nontrivial": out.distinct.len(),
+        "counters": out.counters,
+        "samples": out.samples,
+        "violations_total": out.violations_total,
+        "violations": out.violations.iter().map(|(k, d, c)| serde_json::json!({"kind": k, "detail": d, "case": c})).collect::<Vec<_>>(),
+    });
+    match out_path {
+        Some(p) => std::fs::write(p, report.to_string()).unwrap(),
+        None => println!("{}", report),
+    }
+    let _ = PhantomData::<()>;
+}
